@@ -33,6 +33,9 @@ pub struct Run {
     pub finished: bool,
     pub caps: [usize; 8],       // per-call capacities, cycled
     pub ncaps: usize,
+    pub cap_lo: usize,          // when cap_hi > cap_lo the capacity of call k (k < ncaps) is a fresh symbolic value
+    pub cap_hi: usize,          // in cap_lo..=cap_hi, drawn only when the call actually happens
+    pub drawn: usize,
     pub max_calls: usize,
     pub min_progress: bool,     // assert per-call progress (C08)
     pub full_while_pending: bool,
@@ -41,9 +44,18 @@ pub struct Run {
 impl Run {
     pub fn new(cap: usize) -> Run {
         Run { log: Log::new(), calls: 0, total_read: 0, had_errors: false, output_full_seen: false, finished: false,
-              caps: [cap; 8], ncaps: 1, max_calls: 200, min_progress: true, full_while_pending: false }
+              caps: [cap; 8], ncaps: 1, cap_lo: cap, cap_hi: cap, drawn: 0, max_calls: 200, min_progress: true, full_while_pending: false }
     }
-    fn cap(&self) -> usize { self.caps[self.calls % self.ncaps] }
+    /// symbolic per-call capacities in lo..=hi for the first `n` calls (then cycled)
+    pub fn sym_caps(&mut self, lo: usize, hi: usize, n: usize) { self.cap_lo = lo; self.cap_hi = hi; self.ncaps = n; self.drawn = 0; }
+    fn cap(&mut self) -> usize {
+        let k = self.calls % self.ncaps;
+        if self.cap_hi > self.cap_lo && k >= self.drawn && self.calls < self.ncaps {
+            self.caps[k] = sym_range(110 + k as u32, self.cap_lo, self.cap_hi);
+            self.drawn = k + 1;
+        }
+        self.caps[k]
+    }
 }
 
 pub const BUF: usize = 64;
